@@ -1,10 +1,10 @@
 (* C03 — the core monitor accepts every model trace, for the operation language
-   with re-parenting (no gc, no allow-list transfer inside SetPeer). *)
+   with re-parenting incl. the allow-list transfer inside SetPeer (no gc). *)
 From Coq Require Import List ZArith Bool Arith Lia.
 From Verif Require Import lib.Wire c03.Int64 c03.Model c03.Spec c03.Proofs_Int64 c03.Proofs_Base
      c03.Proofs_Sum c03.Proofs_Reach c03.Proofs_Link c03.Proofs_Targets c03.Proofs_Frames c03.Proofs_Frames2
      c03.Proofs_Frames3 c03.Proofs_Kill c03.Proofs_OpsMem c03.Proofs_Done c03.Proofs_OpsDone c03.Proofs_OpsNew
-     c03.Proofs_OpsOpen c03.Proofs_Hist c03.Proofs_Mon c03.Proofs_Link2 c03.Proofs_OpsRepar c03.Proofs_Hist2.
+     c03.Proofs_OpsOpen c03.Proofs_Hist c03.Proofs_Mon c03.Proofs_Link2 c03.Proofs_Transfer c03.Proofs_OpsRepar c03.Proofs_SetPeer c03.Proofs_Hist2.
 Import ListNotations.
 Local Open Scope Z_scope.
 
@@ -15,27 +15,13 @@ Definition shape2 (o : op) : bool :=
   | _ => core_shape o
   end.
 
-(* SetPeer never has to move an allow-listed connection to the standard scopes *)
-Definition no_transfer (c : config) (a : astate) (o : op) : bool :=
-  match o with
-  | OSetPeer i q =>
-      match nget (aconns a) i with
-      | Some ac => match ac_peer ac with
-                   | Some _ => true
-                   | None => negb (ac_allow ac) || ep_allowed_peer c q (ac_ep ac)
-                   end
-      | None => true
-      end
-  | _ => true
-  end.
-
 (* the decidable hypothesis on a trace: callers behave (Spec.caller_ok,
-   Spec.no_overflow), operations are well-shaped, no gc, no allow-list transfer *)
+   Spec.no_overflow), operations are well-shaped, no gc *)
 Fixpoint covered_run (c : config) (a : astate) (m : omap) (tr : list (op * obs)) : bool :=
   match tr with
   | [] => true
   | (o, x) :: r =>
-      caller_ok a o && no_overflow m o && shape2 o && no_transfer c a o &&
+      caller_ok a o && no_overflow m o && shape2 o &&
       match mon_step_gen false c a m o x with
       | inl (a', m') => covered_run c a' m' r
       | inr _ => true
@@ -46,55 +32,129 @@ Lemma len1_hd : forall A (l : list A) d, length l = 1%nat -> l = [hd d l].
 Proof. intros A [|x [|y r]] d H; cbn in *; try discriminate. reflexivity. Qed.
 
 Lemma wf2_of_bool : forall c st a m o, InvL c st a -> (forall t, ostat m t = use_of (scopes st) t) ->
-  caller_ok a o = true -> no_overflow m o = true -> shape2 o = true -> no_transfer c a o = true ->
+  caller_ok a o = true -> no_overflow m o = true -> shape2 o = true ->
   wf_op2 c st a o.
 Proof.
-  intros c st a m o [I L0] L C N Sh Nt.
+  intros c st a m o [I L0] L C N Sh.
   assert (Bd : forall x, 0 <= mem (use_of (scopes st) x) < two63).
   { intros x. pose proof (use_nonneg (scopes st) x (I_good _ _ _ I)) as (H0 & _).
     pose proof (use_mem_le (scopes st) x (I_good _ _ _ I)). unfold two63, max_int64 in *. lia. }
   destruct o; cbn [wf_op2 shape2] in *; try discriminate;
     try (apply (caller_wf st a m _ L Sh C N)).
-  - cbn [caller_ok no_transfer] in *. destruct (nget (aconns a) i) as [ac|] eqn:Ga; [|discriminate].
-    exists ac. split; [reflexivity|]. split.
-    + intros Ap. rewrite Ap in Nt. apply orb_true_iff in Nt. destruct Nt as [X|X]; [left; destruct (ac_allow ac); [discriminate | reflexivity] | right; exact X].
-    + apply (novf_of_bool st m (OSetPeer i q) _ L N); [cbn [bump]; rewrite L; reflexivity | apply Bd].
+  - cbn [caller_ok] in *. destruct (nget (aconns a) i) as [ac|] eqn:Ga; [|discriminate].
+    split; [exists ac; reflexivity|].
+    apply (novf_of_bool st m (OSetPeer i q) _ L N); [cbn [bump]; rewrite L; reflexivity | apply Bd].
   - cbn [caller_ok] in C. destruct (nget (astreams a) j) as [s|] eqn:Gs; [|discriminate].
     split; [exists s; reflexivity|]. apply (novf_of_bool st m (OSetProto j p) _ L N); [cbn [bump]; rewrite L; reflexivity | apply Bd].
   - cbn [caller_ok] in C. destruct (nget (astreams a) j) as [s0|] eqn:Gs; [|discriminate].
     split; [exists s0; reflexivity|]. apply (novf_of_bool st m (OSetSvc j s) _ L N); [cbn [bump]; rewrite L; reflexivity | apply Bd].
 Qed.
 
-Lemma astep_head2 : forall c st a o, cfg_ok c -> InvL c st a -> wf_op2 c st a o ->
+(* the abstract successor is among the candidates, and every candidate listed
+   before it disagrees with it on the system scope *)
+Lemma astep_picked : forall c st a o, cfg_ok c -> InvL c st a -> wf_op2 c st a o ->
   let '(st', cls) := step c st o in
-  astep c a o cls (o_aflag (model_obs st st' o cls)) = [anext c st a o].
+  exists pre post, astep c a o cls (o_aflag (model_obs st st' o cls)) = pre ++ anextT c st a o :: post /\
+    (forall cand, In cand pre -> usage_A cand System <> usage_A (anextT c st a o) System).
 Proof.
   intros c st a o LO [I L] Wf.
-  assert (Core : wf_op st a o -> let '(st', cls) := step c st o in
-                 astep c a o cls (o_aflag (model_obs st st' o cls)) = [anext c st a o])
-    by (intros W; apply (astep_core_head c st a o LO I W)).
-  destruct o; cbn [wf_op2] in Wf; try (apply Core; exact Wf); try contradiction;
-    unfold anext; destruct L as [Lc Ls]; cbn [step].
-  - destruct Wf as (ac & Ga & Hno & _). destruct (Lc i ac Ga) as (ci & h & Gci & _ & Epe & _).
-    destruct (set_peer c st i q) as [st' cls] eqn:Es. apply len1_hd. cbn [astep]. rewrite Ga.
-    destruct (ac_peer ac) as [q0|] eqn:Ap.
-    + unfold set_peer in Es. rewrite Gci, Epe in Es. inversion Es. reflexivity.
-    + destruct (cls =? 0); [reflexivity|]. specialize (Hno eq_refl).
-      replace (ac_allow ac && negb (ac_allow ac && ep_allowed_peer c q (ac_ep ac))) with false.
-      2:{ destruct (ac_allow ac); [|reflexivity]. destruct Hno as [X|X]; [discriminate | rewrite X; reflexivity]. }
-      destruct (conn_par_nonempty st a i ac (conj Lc Ls) Ga Ap) as (x0 & l0 & Ex). rewrite Ex. reflexivity.
+  assert (Core : wf_op st a o -> match o with OSetPeer _ _ => False | _ => True end ->
+                 let '(st', cls) := step c st o in
+                 exists pre post, astep c a o cls (o_aflag (model_obs st st' o cls)) = pre ++ anextT c st a o :: post /\
+                   (forall cand, In cand pre -> usage_A cand System <> usage_A (anextT c st a o) System)).
+  { intros W No. rewrite (anextT_other c st a o No). pose proof (astep_core_head c st a o LO I W) as H.
+    destruct (step c st o) as [st' cls]. exists [], []. split; [exact H | intros cand []]. }
+  assert (Single : forall o' st' cls, match o' with OSetPeer _ _ => False | _ => True end -> step c st o' = (st', cls) ->
+                   length (astep c a o' cls (o_aflag (model_obs st st' o' cls))) = 1%nat ->
+                   exists pre post, astep c a o' cls (o_aflag (model_obs st st' o' cls)) = pre ++ anextT c st a o' :: post /\
+                     (forall cand, In cand pre -> usage_A cand System <> usage_A (anextT c st a o') System)).
+  { intros o' st' cls No Es Hl. rewrite (anextT_other c st a o' No). unfold anext. rewrite Es.
+    exists [], []. split; [apply len1_hd, Hl | intros cand []]. }
+  destruct o; cbn [wf_op2] in Wf; try (apply Core; [exact Wf | exact Logic.I]); try contradiction;
+    destruct L as [Lc Ls].
+  - pose proof (set_peer_picked c st a i q LO (conj I (conj Lc Ls)) Wf) as H.
+    destruct (step c st (OSetPeer i q)) as [st' cls]. destruct H as (pre & post & El & _ & Hm).
+    exists pre, post. split; assumption.
   - destruct Wf as ((s & Gs) & _). destruct (Ls j s Gs) as (si & h & Gsi & _ & _ & Epr & _).
-    destruct (set_proto c st j p) as [st' cls] eqn:Es. apply len1_hd. cbn [astep]. rewrite Gs.
+    destruct (step c st (OSetProto j p)) as [st' cls] eqn:Es. apply (Single (OSetProto j p) st' cls Logic.I Es).
+    cbn [step] in Es. cbn [astep]. rewrite Gs.
     destruct (as_proto s) as [p0|] eqn:Ap.
     + unfold set_proto in Es. rewrite Gsi, Epr in Es. inversion Es. reflexivity.
     + destruct (cls =? 0); reflexivity.
   - destruct Wf as ((s0 & Gs) & _). destruct (Ls j s0 Gs) as (si & h & Gsi & _ & _ & Epr & Esv & _).
-    destruct (set_svc c st j s) as [st' cls] eqn:Es. apply len1_hd. cbn [astep]. rewrite Gs.
+    destruct (step c st (OSetSvc j s)) as [st' cls] eqn:Es. apply (Single (OSetSvc j s) st' cls Logic.I Es).
+    cbn [step] in Es. cbn [astep]. rewrite Gs.
     destruct (as_svc s0) as [sv0|] eqn:As.
     + unfold set_svc in Es. rewrite Gsi, Esv in Es. inversion Es. reflexivity.
     + destruct (as_proto s0) as [p0|] eqn:Ap.
       * destruct (cls =? 0); reflexivity.
       * unfold set_svc in Es. rewrite Gsi, Esv, Epr in Es. inversion Es. reflexivity.
+Qed.
+
+Lemma first_some_app : forall A B (f : A -> option B) pre x y post,
+  (forall z, In z pre -> f z = None) -> f x = Some y -> first_some f (pre ++ x :: post) = Some y.
+Proof.
+  induction pre as [|z r IH]; intros x y post Hn Hx; cbn [app first_some]; [rewrite Hx; reflexivity|].
+  rewrite (Hn z (or_introl eq_refl)). apply IH; [intros w Hw; apply Hn; right; exact Hw | exact Hx].
+Qed.
+
+Lemma usage_mismatch_some : forall a m l t, In t l -> ostat m t <> usage_A a t -> usage_mismatch a m l <> None.
+Proof.
+  induction l as [|x r IH]; intros t Hi Hne; [destruct Hi|]. cbn [usage_mismatch].
+  destruct (stat_eqb (ostat m x) (usage_A a x)) eqn:E; [|discriminate].
+  destruct Hi as [->|Hi]; [apply stat_eqb_eq in E; contradiction | apply (IH t Hi Hne)].
+Qed.
+
+Lemma oset_keys : forall m t v x, In x (map fst m) \/ x = t -> In x (map fst (oset m t v)).
+Proof.
+  induction m as [|[y e] r IH]; intros t v x H; cbn.
+  - destruct H as [ [] | -> ]. left. reflexivity.
+  - destruct (sid_eqb y t) eqn:E; cbn.
+    + apply sid_eqb_eq in E. subst y. destruct H as [ [H|H] | -> ]; [left; exact H | right; exact H | left; reflexivity].
+    + destruct H as [ [H|H] | -> ]; [left; exact H | right; apply IH; left; exact H | right; apply IH; right; reflexivity].
+Qed.
+
+Lemma delta_keys : forall d m x, In x (map fst m) \/ In x (map e_sid d) -> In x (map fst (apply_delta m d)).
+Proof.
+  induction d as [|e r IH]; intros m x H; unfold apply_delta in *; cbn [fold_left].
+  - destruct H as [H|[]]. exact H.
+  - apply IH. destruct H as [H|[H|H]]; [left; apply oset_keys; left; exact H | left; apply oset_keys; right; symmetry; exact H | right; exact H].
+Qed.
+
+Lemma model_obs_keys : forall st st' o cls m x, get (scopes st') x <> None ->
+  In x (map fst (apply_delta m (o_delta (model_obs st st' o cls)))).
+Proof.
+  intros st st' o cls m x G. apply delta_keys. right. unfold model_obs. cbn [o_delta]. rewrite map_app. apply in_or_app. left.
+  rewrite map_map. destruct (get (scopes st') x) as [sc|] eqn:Gx; [|contradiction].
+  apply get_in_keys in Gx. apply in_map_iff in Gx. destruct Gx as ([y sy] & Ey & Iy). cbn in Ey. subst y.
+  apply in_map_iff. exists (x, sy). split; [|exact Iy]. cbn. unfold entry_of. destruct (get (scopes st') x); reflexivity.
+Qed.
+
+(* the monitor's choice among several candidates *)
+Lemma mon_step_accepts_pick : forall c a a' m m' o x pre post,
+  cfg_ok c -> astep c a o (o_cls x) (o_aflag x) = pre ++ a' :: post ->
+  m' = apply_delta m (o_delta x) ->
+  (exists sm, Inv c sm a' /\ forall t, ostat m' t = use_of sm t) ->
+  (forall cand, In cand pre -> exists t, In t (map fst m') /\ ostat m' t <> usage_A cand t) ->
+  mon_step_gen false c a m o x = inl (a', m').
+Proof.
+  intros c a a' m m' o x pre post LO Ha Em (sm & I & L) Hpre. unfold mon_step_gen. rewrite Ha, <- Em.
+  assert (Hu : forall t, ostat m' t = usage_A a' t) by (intros t; rewrite L; apply (I_num c sm a' I)).
+  set (F := fun cand => match usage_mismatch cand m' (universe cand m') with None => Some cand | Some _ => None end).
+  assert (Pk : first_some F (pre ++ a' :: post) = Some a').
+  { apply first_some_app.
+    - intros z Hz. unfold F. destruct (Hpre z Hz) as (t & Ht & Hne).
+      destruct (usage_mismatch z m' (universe z m')) eqn:E; [reflexivity|]. exfalso.
+      apply (usage_mismatch_some z m' (universe z m') t); [unfold universe; apply in_or_app; left; exact Ht | exact Hne | exact E].
+    - unfold F. rewrite (usage_mismatch_none a' m' _ Hu). reflexivity. }
+  destruct (pre ++ a' :: post) as [|a1 rest] eqn:El; [destruct pre; discriminate|].
+  fold F. rewrite Pk.
+  unfold check_after. rewrite (usage_mismatch_none a' m' _ Hu).
+  rewrite first_some_none.
+  2:{ intros t _. rewrite L, (nonneg_bool _ (use_nonneg sm t (I_good c sm a' I))). reflexivity. }
+  rewrite first_some_none.
+  2:{ intros t _. rewrite L, (within_ok c sm a' t LO I). reflexivity. }
+  reflexivity.
 Qed.
 
 Theorem monitor_accepts2_from : forall c ops st a m i,
@@ -103,18 +163,23 @@ Theorem monitor_accepts2_from : forall c ops st a m i,
   mon_run_gen false c a m i (model_trace c st ops) = [].
 Proof.
   intros c ops. induction ops as [|o r IH]; intros st a m i LO IL L Cv; [reflexivity|].
-  cbn [model_trace] in *. pose proof (astep_head2 c st a o LO IL) as Hd.
+  cbn [model_trace] in *. pose proof (astep_picked c st a o LO IL) as Hd.
   pose proof (step_inv2 c st a o LO IL) as Hi.
   destruct (step c st o) as [st' cls] eqn:Es. cbn [fst] in Hi.
   cbn [covered_run mon_run_gen] in *.
   repeat (apply andb_true_iff in Cv; destruct Cv as [Cv ?]).
-  pose proof (wf2_of_bool c st a m o IL L Cv H2 H1 H0) as Wf. specialize (Hd Wf). specialize (Hi Wf).
+  pose proof (wf2_of_bool c st a m o IL L Cv H1 H0) as Wf. specialize (Hd Wf). specialize (Hi Wf).
+  destruct Hd as (pre & post & El & Hm).
   set (x := model_obs st st' o cls) in *. set (m' := apply_delta m (o_delta x)).
   assert (L' : forall t, ostat m' t = use_of (scopes st') t) by (apply obs_follows, L).
-  pose proof (mon_step_accepts c a (anext c st a o) m m' o x [] LO) as Ms.
+  pose proof (mon_step_accepts_pick c a (anextT c st a o) m m' o x pre post LO) as Ms.
   assert (Ecls : o_cls x = cls) by reflexivity. rewrite Ecls in Ms.
-  specialize (Ms Hd eq_refl (ex_intro _ (scopes st') (conj (proj1 Hi) L'))).
-  rewrite Ms in *. apply (IH st' _ m' (i + 1) LO Hi L' H).
+  specialize (Ms El eq_refl (ex_intro _ (scopes st') (conj (proj1 Hi) L'))).
+  assert (Hp : forall cand, In cand pre -> exists t, In t (map fst m') /\ ostat m' t <> usage_A cand t).
+  { intros cand Hc. exists System. split.
+    - apply model_obs_keys. apply (I_base _ _ _ (proj1 Hi)).
+    - rewrite L', (I_num _ _ _ (proj1 Hi) System). intros E. apply (Hm cand Hc). symmetry. exact E. }
+  specialize (Ms Hp). rewrite Ms in *. apply (IH st' _ m' (i + 1) LO Hi L' H).
 Qed.
 
 Theorem monitor_accepts2 : forall c ops,
